@@ -70,6 +70,7 @@ class FlowTransport(FakeTransport):
         self.limit = None        # pause is signalled during write number limit+1 from now
         self.protocol = None
         self.limits_set = []
+        self.paused = False      # what the transport last told the protocol
 
     def set_write_buffer_limits(self, high=None, low=None):
         self.limits_set.append([high, low])
@@ -79,6 +80,7 @@ class FlowTransport(FakeTransport):
         if self.limit is not None and not self.closed:
             if self.limit == 0:
                 self.limit = None
+                self.paused = True
                 self.protocol.pause_writing()
             else:
                 self.limit -= 1
@@ -110,9 +112,11 @@ async def run_flow(loop: VLoop, c):
                 t.limit = e[1]
             elif e[0] == "rw":
                 if not lost:
+                    t.paused = False
                     p.resume_writing()
             elif e[0] == "pw":
                 if not lost:
+                    t.paused = True
                     p.pause_writing()
             elif e[0] == "l":
                 if not lost:
@@ -123,7 +127,8 @@ async def run_flow(loop: VLoop, c):
         await _drain()
         lens.append(len(t.acts))
     obs = {"acts": [(f"w{len(a[1]) // 2}" if a[0] == "w" else "close") for a in t.acts], "raw": "".join(a[1] for a in t.acts if a[0] == "w"),
-           "dropped": len(t.dropped), "h": log["h"], "exc": list(log["exc"]), "lens": lens, "limits": t.limits_set[:2]}
+           "dropped": len(t.dropped), "h": log["h"], "exc": list(log["exc"]), "lens": lens, "limits": t.limits_set[:2],
+           "paused_end": t.paused, "lost": lost}
     loop.set_exception_handler(lambda lp, cx: None)
     if p.timeout_handle is not None:
         p.timeout_handle.cancel()
